@@ -299,7 +299,7 @@ fn coq_value(v: &str) -> String {
 }
 fn coq_obs(o: &Obs) -> String {
     format!(
-        "({}, {}, {})",
+        "(({}, {}, {}) : mobs)",
         o.code,
         coq_list(&o.trace, |t| unfid(t).map(|p| coq_ids(&p)).unwrap_or("[777]".into())),
         coq_list(&o.probes, |vs| coq_list(vs, |v| coq_value(v)))
@@ -538,6 +538,22 @@ fn structured(rng: &mut Rng, out: &mut Vec<Case>) {
         b.imp(x, vec![22, 11], f);
         out.push(b.done("nested-clean"));
     }
+    // a nested module importing a file that only exists next to the entry (second lookup place),
+    // the entry importing the same file; then the same with a file of that name next to the module
+    for shadow in 0..2 {
+        let mut b = B::new();
+        let dcfg = defs_for(rng, 0);
+        b.file(vec![11], dcfg.clone());
+        let r = b.file(vec![20, 10], defs_for(rng, 1));
+        if shadow == 1 {
+            b.file(vec![20, 11], defs_for(rng, 2));
+        }
+        b.imp(0, vec![11], Form::Alias(70));
+        b.imp(0, vec![20, 10], Form::Alias(71));
+        let f = rand_form(rng, &dcfg, 72, true);
+        b.imp(r, vec![11], if shadow == 1 { Form::Module } else { f });
+        out.push(b.done(&format!("entry-dir-lookup{}", shadow)));
+    }
     // directory module: pkg/mod.aelys importing pkg/helper.aelys
     {
         let mut b = B::new();
@@ -727,6 +743,19 @@ fn random_case(rng: &mut Rng, n: usize) -> Case {
             }
             if flavour == 2 && j <= i && !rng.chance(1, 4) {
                 continue;
+            }
+            if flavour == 2 && !idir.is_empty() && rng.chance(1, 4) {
+                // a file next to the entry, written as seen from the entry's directory
+                let roots: Vec<usize> = (1..nf).filter(|&x| b.files[x].0.len() == 1 && x != i).collect();
+                if !roots.is_empty() {
+                    let x = *rng.pick(&roots);
+                    let tdefs = b.files[x].1.defs.clone();
+                    let alias = 70 + rng.below(6) as Id;
+                    let form = rand_form(rng, &tdefs, alias, true);
+                    let path = b.files[x].0.clone();
+                    b.imp(i, path, form);
+                    continue;
+                }
             }
             let mut rel: Vec<Id> = b.files[j].0[idir.len()..].to_vec();
             if rel.last() == Some(&MODSEG) {
